@@ -570,6 +570,20 @@ def gen_tableau(repo):
         raise Refuse("moles-reduction guard not recognised")
     mr_id = redif[2][1]
     ctl["reduce"] = emit_ctl(subst_pre(red[0][0][3]), {mr_id: "mr"})
+    # moles_max: the once-set local multiplied with the reduction variable in  mr * X < fabs(...)
+    mm = set()
+    for c in find_all(wbody, lambda n: n["kind"] == "BinaryOperator" and n.get("opcode") == "<"):
+        l = strip(kids(c)[0])
+        if l["kind"] == "BinaryOperator" and l.get("opcode") == "*":
+            ids = [strip(x).get("referencedDecl", {}).get("id") for x in kids(l)]
+            if mr_id in ids:
+                other = [i for i in ids if i != mr_id]
+                if len(other) == 1 and other[0] in {i for (i, nme, v) in pre}:
+                    mm.add(other[0])
+    if len(mm) != 1:
+        raise Refuse("could not identify the maximum-moles-per-step variable")
+    mm_vals = [v for (i, nme, v) in pre if i in mm]
+    ctl["moles_max"] = mm_vals[0]
     ctl["reduce_guard"] = (redif[2][2], redif[2][3])
     # reject: first attempt / later attempts
     r0 = [p for p, path in rej if path[1][1] == "then"]
@@ -632,6 +646,7 @@ def gen_tableau(repo):
     L.append("Definition g_h_grow_small_err (h err : Q) : Q := %s." % ctl["grow_small_err"])
     L.append("Definition g_h_clamp (T hsum : Q) : Q := %s." % ctl["clamp"])
     L.append("End Ctl.")
+    L.append("Definition g_moles_max : Q := %s.  (* default; -step_divide < 1 overrides it *)" % qlit(ctl["moles_max"]))
     L.append("Definition g_reduce_guard : Q := %s.  (* moles_reduction %s this *)" % (qlit(ctl["reduce_guard"][1]), ctl["reduce_guard"][0]))
     L.append("Definition g_grow_threshold : Q := %s.  (* error %s this *)" % (qlit(ctl["grow_threshold"][1]), ctl["grow_threshold"][0]))
     L.append("")
